@@ -146,7 +146,7 @@ Fixpoint check_matrix (cr : bool) (k : nat) (ps : list mpat) : list (nat * nat *
   | p :: r => map (fun c => (k, 0%nat, c)) (check_stages p) ++
               map (fun x => (k, S (fst x), snd x)) (check_mrows cr (mp_ast p) 0 (mp_rows p)) ++ check_matrix cr (S k) r
   end.
-(* per pattern: shape class (0 literal, 1 match-all, 2 ^literal, 3 other) and whether it has position assertions *)
+(* per pattern: shape class (0 literal, 1 match-all, 2 ^literal, 3 other, 4 ^(lit|..|lit)$) and whether it has position assertions *)
 Definition shape_code (r : re) : N :=
-  match shape_of r with ShLiteral => 0 | ShMatchAll => 1 | ShBeginLiteral => 2 | ShOther => 3 end.
+  match shape_of r with ShLiteral => 0 | ShMatchAll => 1 | ShBeginLiteral => 2 | ShOther => 3 | ShAnchoredAlt => 4 end.
 Definition pattern_classes (ps : list re) : list (N * bool) := map (fun r => (shape_code r, has_assert r)) ps.
